@@ -3224,6 +3224,7 @@ func (p *printer) printExpr(expr js_ast.Expr, level js_ast.L, flags printExprFla
 
 		if wrap {
 			p.print("(")
+			flags &= ^forbidIn
 		}
 
 		p.printSpaceBeforeIdentifier()
@@ -3235,7 +3236,10 @@ func (p *printer) printExpr(expr js_ast.Expr, level js_ast.L, flags printExprFla
 				p.print("*")
 			}
 			p.printSpace()
-			p.printExprWithoutLeadingNewline(e.ValueOrNil, js_ast.LYield, 0)
+
+			// The operand of "yield" is still inside a "for" loop initializer:
+			// "for (x = yield (a in b);;)" must keep its parentheses
+			p.printExprWithoutLeadingNewline(e.ValueOrNil, js_ast.LYield, flags&forbidIn)
 		}
 
 		if wrap {
